@@ -604,11 +604,12 @@ GRAPH_CUSTOM = [None, None, 'override-ub', 'override-Q_vec', 'override-hkl', 'cl
 
 
 def add_graph_specs(groups, rng):
-    """every group is ALSO evaluated through the graph entry points (graph.tof.elastic_Q_vec / elastic_hkl + transform_coords,
-    start 'wavelength' or 'tof' with the wavelength given); afterwards the caller's copies of the returned graphs are
+    """every group is ALSO evaluated through the graph entry points (graph.tof.elastic_Q_vec / elastic_hkl, 1/3: the full
+    graph.tof.elastic, + transform_coords, start 'wavelength' or 'tof' with the wavelength given); afterwards the caller's copies of the returned graphs are
     modified (a node overridden, the dict cleared): later calls must not see that"""
     for g in groups:
-        g['graph'] = {'start': rng.choice(['wavelength', 'tof']), 'customise': rng.choice(GRAPH_CUSTOM)}
+        g['graph'] = {'start': rng.choice(['wavelength', 'tof']), 'via': rng.choice(['specific', 'specific', 'elastic']),
+                      'customise': rng.choice(GRAPH_CUSTOM)}
     return groups
 
 
@@ -682,21 +683,26 @@ def history_checks(ctx, executed, res_groups, by_hist, found):
                 ctx.violation(key, what, obj)           # fails on its own: not a matter of history
                 continue
             seen.add(key)
-            short = by_hist[g['hist']][:g['step'] + 1] if 'hist' in g else executed[max(0, i - 1):i + 1]
+            # shortest reproducing sequence among: its own history up to this step / one of the 6 groups executed just before
+            # it followed by this group; else everything executed before it
+            cands = [by_hist[g['hist']][:g['step'] + 1]] if 'hist' in g else [[executed[j], g] for j in range(i - 1, max(-1, i - 7), -1)]
             seq = executed[:i + 1]
-            if len(short) < len(seq) and key in keys_of(short, ctx.run_impl('c08_impl.py', {'groups': short}), only_id=g['id']):
-                seq = short
-            prev = seq[-2] if len(seq) > 1 else None
+            for cand in cands:
+                if len(cand) < len(seq) and key in keys_of(cand, ctx.run_impl('c08_impl.py', {'groups': cand}), only_id=g['id']):
+                    seq = cand
+                    break
+            before = [{'group': p_['id'], 'config': p_.get('config'), 'graph': p_.get('graph')} for p_ in seq[:-1]][-8:]
             if 'hist' in g:
                 which = (f'step {g["step"]} of call history {g["hist"]} (same numbers as the earlier steps; this step changed {g["changed"]}; '
-                         f'configuration {g["config"]}; graph entry points {g.get("graph")})')
+                         f'configuration {g["config"]}; graph entry points {g.get("graph")}; {len(seq) - 1} calls before it)')
             else:
-                which = f'group {g["id"]} evaluated after group {prev and prev["id"]} (whose graph spec was {prev and prev.get("graph")})'
+                which = (f'group {g["id"]} (graph entry points {g.get("graph")}) evaluated after {len(seq) - 1} other group(s), the last of them '
+                         f'{before[-1] if before else None}')
             ctx.violation('history:' + key,
                           f'the result depends on the calls made before it in the same process: {which} violates the property although '
                           f'the same call made first in a fresh process satisfies it. {what}',
                           {'case': obj.get('case'), 'history': seq, 'failing_step': len(seq) - 1,
-                           'previous_step': prev and {'config': prev.get('config'), 'graph': prev.get('graph')}})
+                           'calls_before': before})
     return n_steps
 
 
@@ -784,7 +790,8 @@ def correspondence(ctx):
         'per_kernel': kinds, 'kappa_targets': kaps, 'invariance_checks': n_inv,
         'graph_entry_points': {'groups': sum(1 for r in all_res if isinstance(r.get('graph'), dict)),
                                'customisations': {str(k): sum(1 for g in groups + order if g['graph']['customise'] == k) for k in set(GRAPH_CUSTOM)},
-                               'start': {k: sum(1 for g in groups + order if g['graph']['start'] == k) for k in ('wavelength', 'tof')}},
+                               'start': {k: sum(1 for g in groups + order if g['graph']['start'] == k) for k in ('wavelength', 'tof')},
+                               'via': {k: sum(1 for g in groups + order if g['graph']['via'] == k) for k in ('specific', 'elastic')}},
         'call_histories': {'histories': len(by_hist), 'steps': n_hist_steps, 'coq_cases': len(terms) - n_plain, 'axis_changes': axes,
                            'exact_repeats': sum(1 for g in order if g['changed'] == ['repeat-of-earlier-step'])},
         'disagreements': len(fails), 'tolerance': {'Q_abs_in_units_of_2pi_over_lambda': 2e-15, 'norm_vs_scalar_Q': 1e-13, 'hkl': '64*kappa_inf*2^-53'},
